@@ -115,7 +115,7 @@ type UFun struct {
 
 var clauseRe = regexp.MustCompile(`^([A-Za-z0-9_.]+):\s*(.*)$`)
 
-var keywords = map[string]bool{"func": true, "props": true, "safety": true, "requires": true, "ensures": true, "loop": true, "site": true, "inline": true, "trusted": true, "pred": true, "callers": true, "writers": true, "dyncall": true, "chan": true, "cover": true, "pure": true, "ufun": true, "preserves": true, "noauto": true, "package": true, "layout": true, "callsarg": true, "specfn": true, "lemma": true, "apply": true, "assume": true, "raincallers": true}
+var keywords = map[string]bool{"func": true, "props": true, "safety": true, "requires": true, "ensures": true, "loop": true, "site": true, "inline": true, "trusted": true, "pred": true, "callers": true, "writers": true, "dyncall": true, "chan": true, "cover": true, "pure": true, "ufun": true, "preserves": true, "noauto": true, "package": true, "layout": true, "callsarg": true, "specfn": true, "lemma": true, "apply": true, "assume": true, "raincallers": true, "ghostset": true}
 
 func loadContracts(root string) (*Contracts, error) {
 	cs := &Contracts{Funcs: map[string]*FuncContract{}, Preds: map[string]*Pred{}, UFuns: map[string]*UFun{}, Lemmas: map[string]*Lemma{}}
@@ -347,6 +347,26 @@ func (cs *Contracts) parseFile(path, pkg string) error {
 				return err
 			}
 			cur.Sites = append(cur.Sites, &SiteSpec{Kind: "assume-after", Target: fs[2], C: c, Min: 1, Why: why})
+		case "ghostset":
+			// ghostset after <callee> <name> <Sort>: expr
+			// A ghost variable (initially false / 0) updated after every call to <callee>;
+			// the expression may read the ghost's previous value and ret/ret0../argN.
+			if cur == nil || len(fs) < 6 || fs[1] != "after" {
+				return fmt.Errorf("%s:%d: bad ghostset (want: ghostset after <callee> name Sort: expr)", path, d.line)
+			}
+			so := strings.TrimSuffix(fs[4], ":")
+			i := strings.Index(rest, ":")
+			if i < 0 {
+				return fmt.Errorf("%s:%d: ghostset needs ': expr'", path, d.line)
+			}
+			// the ':' of the clause is the first one after the sort token
+			k := strings.Index(rest, fs[4])
+			i = k + strings.Index(rest[k:], ":")
+			e, err := parseSpec(rest[i+1:])
+			if err != nil {
+				return fmt.Errorf("%s:%d: %v", path, d.line, err)
+			}
+			cur.Sites = append(cur.Sites, &SiteSpec{Kind: "ghost-after", Target: fs[2], C: &Clause{Label: fs[3], Props: props, Src: rest[i+1:], E: e, File: path, Line: d.line}, Min: 1, Why: so})
 		case "lemma":
 			l, err := parseLemma(rest, pkg, path, d.line, props)
 			if err != nil {
